@@ -111,7 +111,8 @@ func (pa *patchApplierWO) Delete(key []byte) {
 	if ok, err := pa.db.Has(key); err != nil {
 		pa.err = err
 	} else if !ok {
-		pa.err = pa.db.Put(key, []byte{0})
+		// tombstone (empty raw value): the key did not exist in the version being reconstructed
+		pa.err = pa.db.Put(key, []byte{})
 	}
 }
 
